@@ -396,71 +396,89 @@ End Hash.
 
 (* =================================================================== *)
 (* Re-announcement *)
-Definition reannounce_ok (log : list (client * list request)) : Prop :=
-  forall c sent, In (c, sent) log -> includes sent (on_open_required c) = true.
-
-Definition witness_r : bytes := [Byte.x72].   (* "r" *)
-Definition witness_a : bytes := [Byte.x61].   (* "a" *)
-Definition witness_history : list cevent :=
-  [CReconnect witness_a true; CRegisterResource witness_r; CConnLost true; CReconnect witness_a true].
-
-(* the full statement is FALSE for the code as it is: one resource, one reconnect *)
-Theorem reannounce_refuted :
-  exists evs, ~ reannounce_ok (snd (crun cinit evs)).
-Proof.
-  exists witness_history. intro H.
-  specialize (H {| cl_resources := [witness_r]; cl_cur := None;
-                   cl_server := [(witness_a, 1)]; cl_all := 0; cl_tm := false |} [RegisterTM]).
-  cbn in H. assert (false = true) by (apply H; right; now left). discriminate.
-Qed.
-
 Lemma crun_log c evs c0 sent :
-  In (c0, sent) (snd (crun c evs)) -> sent = [RegisterTM].
+  In (c0, sent) (snd (crun c evs)) -> sent = on_open c0.
 Proof.
   revert c. induction evs as [|e evs IH]; intros c H; cbn in H; [contradiction|].
   destruct (cstep c e) as [c' out] eqn:E. destruct (crun c' evs) as [cf rest] eqn:R.
   cbn in H. specialize (IH c'). rewrite R in IH. cbn in IH.
-  destruct e; cbn in E.
+  destruct e as [t r|p|a ok]; cbn in E.
   - inversion E; subst; auto.
   - destruct (cl_cur c); inversion E; subst; auto.
-  - destruct write_ok; inversion E; subst; auto. destruct H as [H|H]; [now inversion H|auto].
+  - destruct ok; inversion E; subst; auto. destruct H as [H|H]; [now inversion H|auto].
 Qed.
 
-(* strongest true statement, over ALL histories (connections lost with the session
-   still open or already closed by the peer, reconnects to the same or to another
-   address, any number of times, whatever the per-address map holds): every new
-   session carries RegisterTM, and it carries everything required exactly when no
-   resource had been registered before *)
-Theorem reannounce_partial evs c sent :
+Lemma dedupN_in l x : In x l -> In x (dedupN l).
+Proof.
+  induction l as [|a l IH]; cbn; [tauto|]. intros [->|H].
+  - destruct (existsb (N.eqb x) l) eqn:E; [|now left].
+    apply IH. apply existsb_exists in E as (y & Hy & Hxy). apply N.eqb_eq in Hxy. now subst.
+  - destruct (existsb (N.eqb a) l); [auto|right; auto].
+Qed.
+
+Lemma on_open_announces rs t r :
+  In (t, r) rs ->
+  In (RegisterRM (sort_bytes (ids_of rs t))) (map (fun t => RegisterRM (sort_bytes (ids_of rs t))) (branch_types rs))
+  /\ In r (sort_bytes (ids_of rs t)).
+Proof.
+  intro H. split.
+  - apply (in_map (fun t0 => RegisterRM (sort_bytes (ids_of rs t0)))).
+    apply dedupN_in. apply (in_map fst rs (t, r)). exact H.
+  - apply (proj2 (sort_bytes_in (fun _ => 0) _ _)). unfold ids_of.
+    apply (in_map snd (filter (fun x => fst x =? t) rs) (t, r)).
+    apply filter_In. split; auto. cbn. apply N.eqb_refl.
+Qed.
+
+(* THE re-announcement theorem (full, after the fix): over ALL histories of
+   register-resource / connection-lost (session still open or already closed by the
+   peer) / reconnect (to any address, with or without a failing first write) events,
+   every session that gets established carries RegisterTM and, for every resource
+   the client holds, of whatever branch type, a RegisterRM naming it *)
+Theorem reannounce_full evs c sent :
   In (c, sent) (snd (crun cinit evs)) ->
   In RegisterTM sent /\
-  (cl_resources c = [] -> includes sent (on_open_required c) = true) /\
-  (cl_resources c <> [] -> includes sent (on_open_required c) = false).
+  forall t r, In (t, r) (cl_resources c) -> exists ids, In (RegisterRM ids) sent /\ In r ids.
 Proof.
-  intro H. apply crun_log in H. subst. split; [now left|]. split.
-  - intro Hc. unfold on_open_required. rewrite Hc. reflexivity.
-  - intro Hne. unfold on_open_required. destruct (cl_resources c) as [|r rs]; [congruence|]. reflexivity.
+  intro H. apply crun_log in H. subst sent. split; [now left|].
+  intros t r Hr. destruct (on_open_announces (cl_resources c) t r Hr) as [H1 H2].
+  exists (sort_bytes (ids_of (cl_resources c) t)). split; [right; exact H1|exact H2].
 Qed.
 
-(* the per-address map: a connection lost with the session already closed leaves
-   its entry behind; one lost while open removes it *)
-Lemma stale_entry_stays c a :
-  cl_cur c = Some a ->
-  cnt_of (cl_server (fst (cstep c (CConnLost true)))) a = cnt_of (cl_server c) a.
-Proof. intro H. cbn. now rewrite H. Qed.
+(* the same as the executable predicate the tie evaluates on the real run *)
+Theorem reannounce_full_bool evs c sent :
+  In (c, sent) (snd (crun cinit evs)) -> reannounced c sent = true.
+Proof.
+  intro H. destruct (reannounce_full evs c sent H) as [Htm Hrm].
+  unfold reannounced. apply andb_true_iff. split.
+  - unfold has_tm. apply existsb_exists. exists RegisterTM. auto.
+  - apply forallb_forall. intros [t r] Hin. cbn [snd].
+    destruct (Hrm t r Hin) as (ids & Hs & Hr).
+    unfold announces. apply existsb_exists. exists (RegisterRM ids). split; auto.
+    apply existsb_exists. exists r. split; auto. apply bytes_eqb_refl.
+Qed.
 
-(* every REGISTERED open session has had RegisterTM written on it successfully: after
-   any history (connections lost in either way, reconnects to any address, failed
-   first writes on a fresh connection) a connected client is an announced client *)
-Definition announced_inv (c : client) : Prop := cl_connected c = true -> cl_tm c = true.
+(* nothing extra on a client without resources: the first connection is unaffected *)
+Lemma on_open_no_resources c : cl_resources c = [] -> on_open c = [RegisterTM].
+Proof. intro H. unfold on_open. now rewrite H. Qed.
+
+(* every REGISTERED open session is an announced one: after any history (connections
+   lost in either way, reconnects to any address, failed first writes on a fresh
+   connection, resources registered while connected or not) a connected client has had
+   RegisterTM written successfully on its session, and every resource it holds has been
+   announced on that session *)
+Definition announced_inv (c : client) : Prop :=
+  cl_connected c = true ->
+  cl_tm c = true /\ (forall x, In x (cl_resources c) -> In x (cl_rm c)).
 
 Lemma cstep_announced c e : announced_inv c -> announced_inv (fst (cstep c e)).
 Proof.
   unfold announced_inv, cl_connected. intro H.
-  destruct e as [r|p|a ok]; cbn.
-  - exact H.
+  destruct e as [t r|p|a ok]; cbn.
+  - unfold cl_connected. destruct (cl_cur c) eqn:E; cbn; [|discriminate].
+    intros _. destruct (H eq_refl) as [H1 H2]. split; auto.
+    intros x Hx. apply in_app_or in Hx as [Hx|Hx]; apply in_or_app; auto.
   - destruct (cl_cur c) eqn:E; cbn; [discriminate|rewrite E; exact H].
-  - destruct ok; cbn; [reflexivity|discriminate].
+  - destruct ok; cbn; [auto|discriminate].
 Qed.
 
 Lemma crun_announced evs : forall c, announced_inv c -> announced_inv (fst (crun c evs)).
@@ -472,7 +490,9 @@ Proof.
 Qed.
 
 Theorem registered_announced evs :
-  cl_connected (fst (crun cinit evs)) = true -> cl_tm (fst (crun cinit evs)) = true.
+  cl_connected (fst (crun cinit evs)) = true ->
+  cl_tm (fst (crun cinit evs)) = true
+  /\ forall x, In x (cl_resources (fst (crun cinit evs))) -> In x (cl_rm (fst (crun cinit evs))).
 Proof. apply (crun_announced evs cinit). unfold announced_inv. cbn. discriminate. Qed.
 
 (* a failed announcement leaves nothing registered *)
@@ -480,3 +500,10 @@ Lemma failed_announcement_not_registered c a :
   cl_connected (fst (cstep c (CReconnect a false))) = false
   /\ cl_all (fst (cstep c (CReconnect a false))) = cl_all c.
 Proof. cbn. auto. Qed.
+
+(* the per-address map: a connection lost with the session already closed leaves
+   its entry behind; one lost while open removes it *)
+Lemma stale_entry_stays c a :
+  cl_cur c = Some a ->
+  cnt_of (cl_server (fst (cstep c (CConnLost true)))) a = cnt_of (cl_server c) a.
+Proof. intro H. cbn. now rewrite H. Qed.
